@@ -233,5 +233,13 @@ InvC07 == /\ st.pos - Len(st.delivered) <= st.cfg.buf + 2
 TightStart == st.started - Len(st.delivered) <= st.cfg.buf - 1      \* must be refuted
 TightPull  == st.pos - Len(st.delivered) <= st.cfg.buf               \* must be refuted
 
+\* refinement: this spec implements the counting abstraction PoolCount.tla, whose
+\* inductive invariant Apalache proves for unbounded sources / buffers / pools
+CountAbs == INSTANCE PoolCount WITH
+  buf <- st.cfg.buf, pos <- st.pos, sub <- Len(st.fut), started <- st.started,
+  nd <- Len(st.delivered), ql <- Len(st.qf), cpc <- st.cpc, phase <- st.phase
+CountSpec == CountAbs!Spec
+CountIndInv == CountAbs!IndInv
+
 EdgeOut == PrintT(<<"EDGE", ToJson([f |-> st, t |-> st', th |-> st'.mv])>>)
 =============================================================================
